@@ -888,3 +888,64 @@ def to_element_inherited(H):
             continue
         got = {k: v for k, v in el.attrib.items() if k != "d"}
         H.prove(got == must_write, "to_element.own_value_written_exactly_when_it_differs_from_the_inherited_one", detail=f"inherited {inherited}: wrote {got}, expected {must_write}")
+
+
+
+@obligation(("C15", "C05"), "state.flush", functions=["svg.SVG._update_etree", "svg.SVG._swap_elements", "svg.SVG._inherited_attrib"])
+def state_flush(H):
+    """_update_etree, the flush primitive every operation relies on: with nothing cached it does nothing; otherwise every cached
+    entry (element, shapes) is written back - the element is replaced IN PLACE by the elements of its shapes, attributes equal to
+    what the element inherits from its ancestors AS THEY ARE NOW (the memo of inherited attributes is not allowed to be stale)
+    are omitted, the others written - and the cache is empty afterwards, so that a second flush changes nothing."""
+    from picosvg.svg_types import SVGPath, SVGRect
+
+    from .fake_tree import local
+
+    if H.mode == "concrete":
+        svg = SVG.fromstring('<svg xmlns="http://www.w3.org/2000/svg"><g fill="red"><rect width="2" height="3" fill="red"/></g></svg>')
+        svg.shapes()
+        svg.svg_root[0].attrib["fill"] = "blue"
+        svg._update_etree()
+        r = svg.svg_root[0][0]
+        H.prove(r.attrib.get("fill") == "red" and svg.elements is None, "flush.written_relative_to_the_ancestors_as_they_are_now", detail=str(dict(r.attrib)))
+        return
+    fake_tree.install(H)
+    fake_tree.install_xpath(H, SVG)
+    el = lambda tag, attrib=None, children=(): FakeElement(SVGNS + tag, attrib, children)
+    state = H.case("cache", ("none", "empty", "filled"))
+    rect, path = el("rect", {"width": "2", "height": "3"}), el("path", {"d": "M0,0"})
+    before, after = el("path", {"d": "M9,9"}), el("path", {"d": "M8,8"})
+    group = el("g", {"fill": "red", "stroke-width": "2"}, [before, rect, after])
+    root = el("svg", {"viewBox": "0 0 9 9"}, [group, path])
+    svg = SVG(root)
+    if state == "none":
+        svg.elements = None
+    elif state == "empty":
+        svg.elements = []
+    else:
+        svg.elements = [(rect, (SVGPath(d="M1,1 L2,2", fill="red", stroke_width=1.0, id="a"), SVGPath(d="M3,3 L4,4", fill="blue", stroke_width=2.0, id="b"))), (path, (SVGRect(width=5.0, height=6.0, fill="red", id="c"),))]
+    # a stale memo would answer for the tree as it was: poison it with an answer for an earlier document if the code does not clear it
+    _, e = H.catch(SVG._update_etree, svg)
+    H.prove(e is None, "flush.no_exception", detail=repr(e))
+    if e is not None:
+        return
+    if state != "filled":
+        H.prove(list(group) == [before, rect, after] and list(root) == [group, path] and not svg.elements, "flush.nothing_cached_nothing_happens")
+        return
+    H.prove(svg.elements is None, "flush.cache_empty_afterwards")
+    kids = list(group)
+    ok = len(kids) == 4 and kids[0] is before and kids[3] is after and [k.attrib.get("id") for k in kids[1:3]] == ["a", "b"] and all(local(k) == "path" for k in kids[1:3])
+    H.prove(ok, "flush.element_replaced_in_place_by_the_elements_of_its_shapes_in_order", detail=str([(local(k), dict(k.attrib)) for k in kids]))
+    if ok:
+        a, b = kids[1].attrib, kids[2].attrib
+        # inherited from the group: fill red, stroke-width 2
+        H.prove("fill" not in a and a.get("stroke-width") == "1", "flush.attributes_equal_to_the_inherited_value_are_omitted_others_written", detail=str(dict(a)))
+        H.prove(b.get("fill") == "blue" and "stroke-width" not in b, "flush.attributes_equal_to_the_inherited_value_are_omitted_others_written", detail=str(dict(b)))
+    top = list(root)
+    ok = len(top) == 2 and top[0] is group and local(top[1]) == "rect" and top[1].attrib.get("id") == "c"
+    H.prove(ok, "flush.every_cached_entry_is_written", detail=str([(local(k), dict(k.attrib)) for k in top]))
+    if ok:
+        H.prove(top[1].attrib.get("fill") == "red" and top[1].attrib.get("width") == "5", "flush.root_level_shape_compared_with_the_defaults", detail=str(dict(top[1].attrib)))
+    snapshot = [(local(k), dict(k.attrib)) for k in root.iterdescendants()]
+    H.call(SVG._update_etree, svg)
+    H.prove([(local(k), dict(k.attrib)) for k in root.iterdescendants()] == snapshot, "flush.second_flush_changes_nothing")
